@@ -303,7 +303,54 @@ func init() {
 
 // ---------- C14: multiple / parallel-multiple catch events account correctly over any history ----------
 
+// genC14Bare: a process without any activity - start event, the catch event, end event. The catch event is then
+// the consumer the instance registered last, and nothing but the event history drives the run.
+func genC14Bare(d *Draw) Case {
+	defs := &Definitions{}
+	g := &Graph{ID: "P1", Executable: true}
+	defs.Procs = []*Graph{g}
+	defs.Signals = []string{"s1", "s2", "sX"}
+	defs.Messages = []string{"m1", "m2", "mX"}
+	all := []EventDef{{Kind: "signal", Ref: "s1"}, {Kind: "message", Ref: "m1"}, {Kind: "signal", Ref: "s2"}, {Kind: "message", Ref: "m2"}}
+	nd := 1 + d.N(4)
+	cm := &Node{ID: "CM", Kind: "catch", Parallel: d.N(3) != 0}
+	cm.Relaxed = cm.Parallel
+	perm := []int{0, 1, 2, 3}
+	for i := 3; i > 0; i-- {
+		j := d.N(i + 1)
+		perm[i], perm[j] = perm[j], perm[i]
+	}
+	for _, k := range perm[:nd] {
+		cm.Events = append(cm.Events, all[k])
+	}
+	g.addNode(&Node{ID: "Start", Kind: "start"})
+	g.addNode(cm)
+	g.connect(defs, "Start", "CM", nil, -1)
+	g.addNode(&Node{ID: "End", Kind: "end"})
+	g.connect(defs, "CM", "End", nil, -1)
+	g.index()
+	pool := append(append([]EventDef{}, cm.Events...), EventDef{Kind: "signal", Ref: "sX"}, EventDef{Kind: "message", Ref: "mX"})
+	c := &ProcCase{Buf: d.N(17), Hold: d.N(3)}
+	var evd []string
+	for i, ne := 0, 1+d.N(9); i < ne; i++ {
+		e := pool[d.N(len(pool))]
+		c.Events = append(c.Events, EvPlan{Kind: e.Kind, Ref: e.Ref})
+		evd = append(evd, e.Ref)
+	}
+	var dd []string
+	for _, e := range cm.Events {
+		dd = append(dd, e.Ref)
+	}
+	c.Prog = &Program{Defs: defs, Vars: map[string]any{}, Desc: fmt.Sprintf("process without activities: catch defs=%v parallelMultiple=%v events=%v", dd, cm.Parallel, evd)}
+	c.Picks = drawPicks(d, 16)
+	c.Meta = map[string]int{"parallel": b2i(cm.Parallel), "ndefs": nd, "bare": 1}
+	return c
+}
+
 func genC14(d *Draw) Case {
+	if d.N(6) == 5 {
+		return genC14Bare(d)
+	}
 	defs := &Definitions{}
 	g := &Graph{ID: "P1", Executable: true}
 	defs.Procs = []*Graph{g}
@@ -455,18 +502,37 @@ func checkC14(cc Case, r *simrt.Result) *Outcome {
 	}
 	eventCallsReturned("C14", c, &vl)
 	tg := CheckTokenGame("C14", c.Prog, c.env.L.E)
-	vl.v = append(vl.v, tg.Viol...)
+	for _, v := range tg.Viol {
+		if c.Meta["bare"] == 1 && (v.Clause == "C14/complete-early" || v.Clause == "C14/cease-early") {
+			// Nothing follows the catch event here, and the reference model lets a relaxed (parallel-multiple)
+			// catch go only when the observer has logged its LeaveTrace: the completion, which another
+			// goroutine logs, can overtake that entry. The bounds below still hold the firing to the history.
+			if n := c.Prog.Defs.Procs[0].Node("CM"); n != nil && n.Relaxed {
+				continue
+			}
+		}
+		vl.v = append(vl.v, v)
+	}
 	// counting bounds, from the engine's own traces: EventObservedTrace (the node was listening) and
 	// the node's LeaveTrace (it fired)
 	cm := c.Prog.Defs.Procs[0].Node("CM")
 	matches := make([]int, len(cm.Events))
 	fires := 0
 	var pendingEv [][2]string
+	oneAtATimeOff := false // events from their own goroutines or in bursts: deliveries and observations cannot be paired
+	for _, ep := range c.Events {
+		if ep.Own || ep.Burst > 0 {
+			oneAtATimeOff = true
+		}
+	}
 	for _, ev := range c.env.L.E {
 		switch ev.Kind {
 		case "ev":
 			pendingEv = append(pendingEv, [2]string{ev.A, ev.B})
 		case "t:eventobserved":
+			if ev.A == "CM" && len(pendingEv) == 0 && !oneAtATimeOff {
+				vl.add("C14/observed-without-delivery", "step %d: the catch event observed an event although none has been delivered since the last one it observed: one delivery reached it twice", ev.Step)
+			}
 			if ev.A == "CM" && len(pendingEv) > 0 {
 				e := pendingEv[0]
 				pendingEv = pendingEv[1:]
@@ -527,6 +593,7 @@ func checkC14(cc Case, r *simrt.Result) *Outcome {
 	probe(o, "re-armed", fires > 1)
 	probe(o, "concurrent-deliveries", concurrent && !burst)
 	probe(o, "burst-behind-a-stalled-node", burst)
+	probe(o, "process-without-activities", c.Meta["bare"] == 1)
 	o.Sample = map[string]any{"program": c.Prog.Desc, "matches_per_definition": matches, "fires": fires}
 	return o
 }
